@@ -115,8 +115,8 @@ def cron_match(expr: str, local: datetime) -> Tuple[bool, bool]:
     d2 = field_match(dow, wd, 0)
     if dom.startswith("*") or dow.startswith("*"):
         return base and d1 and d2, False
-    # both day fields restricted: cron says OR; accept AND too where they differ
-    return base and (d1 or d2), base and (d1 != d2)
+    # both day fields restricted: cron (Vixie, and pycron) matches when *either* day field matches
+    return base and (d1 or d2), False
 
 
 def gen_field(rng: random.Random, idx: int, include: Optional[int]) -> str:
@@ -296,12 +296,12 @@ class C13(Check):
             "seconds/microseconds, half of the cases steered so that the expression matches; minute-exhaustive sweeps "
             "(all 1440+ minutes) over DST transition days of each zone. Real get_task_delay() under a controlled "
             "clock vs an independent cron matcher on zoneinfo local time (Vixie day rule; when both day fields are "
-            "restricted either AND or OR accepted where they differ); answer must be 0 or None and identical at "
+            "restricted the expression matches when either does, as cron and pycron define it); answer must be 0 or None and identical at "
             "three different seconds of the minute. Zone cases are judged only where zoneinfo and pytz agree on the "
             "offset (system tzdata 2025b vs pytz 2026c), else counted as skipped. Non-trivial: expression has >=2 "
             "restricted fields or a non-None offset; distinct = distinct (expression, offset, minute).")
     floors = {"counters.due_answers": 20000, "counters.not_due_answers": 20000, "counters.dst_day_minutes": 5000,
-              "counters.zone_cases": 10000}
+              "counters.zone_cases": 10000, "counters.due_by_one_day_field_only": 300}
     quick_cases = 16 * 60
     thorough_cases = 16 * 4000
     quick_time = 25.0
@@ -412,6 +412,10 @@ class C13(Check):
         want, amb = cron_match(e, loc)
         got = eval_cron(t, us)
         cr.events["get_task_delay"] += 1
+        f_ = e.split(" ")
+        if not f_[2].startswith("*") and not f_[4].startswith("*") and want:
+            if field_match(f_[2], loc.day, 1) != field_match(f_[4], loc.isoweekday() % 7, 0):
+                cr.counters["due_by_one_day_field_only"] += 1  # the OR of the two day fields decides
         if isinstance(off, str):
             cr.counters["zone_cases"] += 1
         if got not in (0, None) or isinstance(got, bool):
